@@ -26,6 +26,16 @@ package mod_doh
 //  D  POST bodies around maxPostMsgLength: complete messages of length limit-1, limit,
 //     limit+1, ... with the limit falling on a record boundary or inside a record, small
 //     message + trailing bytes beyond the limit; bodies shorter than Content-Length.
+//  S  more than one query alive at a time (aliasing between requests): every sequence of
+//     operations {convert(query_i, client_j) into one of L live slots, pack(slot k)} up to a
+//     depth, executed from scratch on the real code; pack = what dns.Conn.WriteMsg does, so
+//     "pack A, convert B, pack A again" is exchangeWithRetry's re-send after a lost datagram.
+//     Oracle at every pack: the message still satisfies the single-request oracle for ITS
+//     OWN client and query (no verdict that the same query+client alone does not have).
+//  R  the same with two requests on two threads under the controlled scheduler (vsched): all
+//     interleavings of {convert, send, re-send} of both threads; the -race build reports a
+//     write shared between two conversions as a data race with exact happens-before edges
+//     (requests of different connections are not ordered by anything).
 //
 // Oracle (exactly the statement):
 //   plain well-formed query (one question, QUERY opcode, QR=0, additional section empty or
@@ -57,6 +67,7 @@ import (
 	"github.com/bfenetworks/bfe/bfe_bufio"
 	"github.com/bfenetworks/bfe/bfe_http"
 	"github.com/bfenetworks/bfe/verifkit/vk"
+	"github.com/bfenetworks/bfe/verifkit/vsched"
 )
 
 // ---------------------------------------------------------------------------------------
@@ -637,6 +648,28 @@ func c56judge(cm *c56Msg, got *dns.Msg, ac c56AddrCombo) (vs []c56Verdict, ecsCl
 		if ac.eff.family == 2 {
 			wantFam, wantPfx, wantAddr = 2, 128, []byte(ac.eff.ip.To16())
 		}
+		// every ECS option that the client did not send itself was added by bfe and must
+		// describe this client (not e.g. the client of another request)
+		own := map[string]bool{}
+		for _, co := range cOpts {
+			all, _ := c56options(co.rdata)
+			for _, o := range all {
+				if o.code == 8 {
+					own[string(o.data)] = true
+				}
+			}
+		}
+		for _, fo := range fOpts {
+			all, _ := c56options(fo.rdata)
+			for _, o := range all {
+				if o.code != 8 || len(o.data) < 4 || own[string(o.data)] {
+					continue
+				}
+				if !(int(binary.BigEndian.Uint16(o.data)) == wantFam && int(o.data[2]) == wantPfx && bytes.Equal(o.data[4:], wantAddr)) {
+					vs = append(vs, c56Verdict{"ecs:" + c56famName(ac.eff) + ":foreign-ecs-option", fmt.Sprintf("forwarded message carries an ECS option %x that is neither the client's own nor this client's address %x", o.data, wantAddr)})
+				}
+			}
+		}
 		ok := false
 		var seen []string
 		for _, fo := range fOpts {
@@ -855,7 +888,7 @@ func c56malformed(base *c56Msg) []c56Bad {
 func c56bigMessage(total, boundary int) *c56Msg {
 	m := &c56Msg{id: 0x5151, flags: 0x0100, q: []c56Q{{"big.example.com.", 1, 1}}}
 	used := len(c56encode(m))
-	const hdr = 11 // root owner + fixed RR fields
+	const hdr = 11          // root owner + fixed RR fields
 	add := func(size int) { // one record of exactly size bytes
 		m.ar = append(m.ar, c56RR{name: ".", typ: 65280, class: 1, ttl: 0, rdata: bytes.Repeat([]byte{byte(len(m.ar))}, size-hdr)})
 		used += size
@@ -956,6 +989,341 @@ func (x *c56Run) one(id string, raw []byte, frag int, ac c56AddrCombo, cm *c56Ms
 	}
 }
 
+// ---------------------------------------------------------------------------------------
+// Parts S and R: several queries alive at the same time.
+
+type c56SeqQ struct {
+	name string
+	raw  []byte // complete HTTP request
+	cm   *c56Msg
+}
+
+func c56seqQueries(n int) []c56SeqQ {
+	q := []c56Q{{"a.example.", 1, 1}}
+	aRR := c56RR{name: "ns.example.", typ: 1, class: 1, ttl: 60, rdata: []byte{192, 0, 2, 53}}
+	ecs24 := c56Opt{8, []byte{0, 1, 24, 0, 198, 51, 100}}
+	ms := []*c56Msg{
+		{id: 0xA001, flags: 0x0100, q: q, label: "noopt"},
+		{id: 0xA002, flags: 0x0100, q: q, ar: []c56RR{c56optRR(4096, 0, c56cookie)}, label: "opt-cookie"},
+		{id: 0xA003, flags: 0x0100, q: q, ar: []c56RR{c56optRR(4096, 0x8000, ecs24, c56cookie)}, label: "opt-ecs24+cookie"},
+		{id: 0xA004, flags: 0x0100, q: q, ar: []c56RR{c56optRR(4096, 0), c56optRR(1232, 0, c56cookie)}, label: "two-opts"},
+		{id: 0xA005, flags: 0x0100, q: q, ar: []c56RR{c56optRR(4096, 0)}, label: "opt-empty"},
+		{id: 0xA006, flags: 0x0100, q: q, ar: []c56RR{c56optRR(4096, 0, ecs24)}, label: "opt-ecs-only"},
+		{id: 0xA007, flags: 0x0100, q: q, ar: []c56RR{aRR, c56optRR(4096, 0, c56Opt{12, make([]byte, 5)}, c56cookie)}, label: "a+opt-pad-cookie"},
+		{id: 0xA008, flags: 0x0100, q: []c56Q{{"b.example.", 28, 1}}, label: "noopt-b"},
+	}
+	if n > len(ms) {
+		n = len(ms)
+	}
+	var out []c56SeqQ
+	for i, m := range ms[:n] {
+		wire := c56encode(m)
+		cm, _, e := c56parse(wire)
+		if e != "" {
+			panic("harness bug: seq query " + m.label + ": " + e)
+		}
+		sq := c56SeqQ{cm: cm}
+		if i%2 == 0 {
+			sq.name, sq.raw = m.label+"/get", c56get("dns="+c56b64(wire))
+		} else {
+			sq.name, sq.raw = m.label+"/post", c56postCL(wire, len(wire))
+		}
+		out = append(out, sq)
+	}
+	return out
+}
+
+func c56seqClients(n int) []c56AddrCombo {
+	as := []c56Addr{c56v4b4("198.51.100.7"), c56v6("2001:db8::42"), c56v4b16("203.0.113.99"), c56v6("2001:db8::43"),
+		c56v4b4("203.0.113.99"), c56v6("::1"), c56v4b16("198.51.100.7"), c56v6("fe80::ffff:c633:6407")}
+	if n > len(as) {
+		n = len(as)
+	}
+	var out []c56AddrCombo
+	for i, a := range as[:n] {
+		ac := c56AddrCombo{name: "r=" + a.name, remote: c56tcp(a), eff: a, judged: true}
+		if i%3 == 2 { // the address arrives as ClientAddr behind a trusted IPv4 proxy
+			ac = c56AddrCombo{name: "r=v4b4(10.9.9.9),c=" + a.name, remote: c56tcp(c56v4b4("10.9.9.9")), client: c56tcp(a), eff: a, judged: true}
+		}
+		out = append(out, ac)
+	}
+	return out
+}
+
+type c56Live struct {
+	msg *dns.Msg
+	q   *c56SeqQ
+	c   *c56AddrCombo
+}
+
+func c56sigSet(vs []c56Verdict) map[string]bool {
+	m := map[string]bool{}
+	for _, v := range vs {
+		m[v.sig] = true
+	}
+	return m
+}
+
+// c56baseline: verdict signatures of every (query, client) when it is the only request.
+func c56baseline(qs []c56SeqQ, cs []c56AddrCombo) [][]map[string]bool {
+	out := make([][]map[string]bool, len(qs))
+	for i := range qs {
+		out[i] = make([]map[string]bool, len(cs))
+		for j := range cs {
+			msg, err, herr := c56exec(qs[i].raw, 0, cs[j])
+			if err != nil || herr != nil {
+				out[i][j] = map[string]bool{"rejected": true}
+				continue
+			}
+			vs, _ := c56judge(qs[i].cm, msg, cs[j])
+			out[i][j] = c56sigSet(vs)
+		}
+	}
+	return out
+}
+
+// seqExplore enumerates every operation sequence of length 2..depth that ends in a pack.
+// op < nConv*L: convert (query,client)=op/L into slot op%L (slots are filled in order, a
+// filled slot may be overwritten = that request is over); else pack slot op-nConv*L.
+func (x *c56Run) seqExplore(tag string, qs []c56SeqQ, cs []c56AddrCombo, L, depth int, idx *int) {
+	r := x.r
+	base := c56baseline(qs, cs)
+	nConv := len(qs) * len(cs)
+	nOps := nConv*L + L
+	opName := func(op int) string {
+		if op >= nConv*L {
+			return fmt.Sprintf("pack%d", op-nConv*L)
+		}
+		qc := op / L
+		return fmt.Sprintf("conv%d(%s,%s)", op%L, qs[qc/len(cs)].name, cs[qc%len(cs)].name)
+	}
+	seqName := func(seq []int) string {
+		parts := make([]string, len(seq))
+		for i, op := range seq {
+			parts[i] = opName(op)
+		}
+		return vk.Key("S", tag, strings.Join(parts, " "))
+	}
+	slots := make([]c56Live, L)
+	run := func(seq []int) {
+		if !r.CaseN(func() string { return seqName(seq) }) {
+			return
+		}
+		for i := range slots {
+			slots[i] = c56Live{}
+		}
+		var vs []c56Verdict
+		var last *c56Live
+		panicked, pv := vk.Guard(func() {
+			for i, op := range seq {
+				if op < nConv*L {
+					qc := op / L
+					q, c := &qs[qc/len(cs)], &cs[qc%len(cs)]
+					msg, err, herr := c56exec(q.raw, 0, *c)
+					if err != nil || herr != nil {
+						if !base[qc/len(cs)][qc%len(cs)]["rejected"] {
+							vs = append(vs, c56Verdict{"request-rejected", fmt.Sprintf("%s is accepted alone but rejected here: %v %v", opName(op), err, herr)})
+						}
+						msg = nil
+					}
+					slots[op%L] = c56Live{msg, q, c}
+					continue
+				}
+				lv := &slots[op-nConv*L]
+				if lv.msg == nil {
+					continue
+				}
+				if i < len(seq)-1 {
+					lv.msg.Pack() // an earlier send; judged in the sequence that ends here
+					continue
+				}
+				last = lv
+				jv, _ := c56judge(lv.q.cm, lv.msg, *lv.c)
+				vs = append(vs, jv...)
+			}
+		})
+		id := ""
+		if panicked {
+			id = seqName(seq)
+			r.Outcome("seq:panic")
+			r.Violation("interference:panic:"+vk.PanicSite(pv), id, pv)
+			return
+		}
+		bad := false
+		for _, v := range vs {
+			if last != nil {
+				qi, ci := 0, 0
+				for i := range qs {
+					if &qs[i] == last.q {
+						qi = i
+					}
+				}
+				for i := range cs {
+					if &cs[i] == last.c {
+						ci = i
+					}
+				}
+				if base[qi][ci][v.sig] {
+					continue // the single request already has this verdict (reported by part A)
+				}
+			}
+			if id == "" {
+				id = seqName(seq)
+			}
+			bad = true
+			r.Violation("interference:"+v.sig, id, fmt.Sprintf("with %d queries alive, after [%s]: %s", L, strings.Join(strings.Split(id, "|")[2:], "|"), v.detail))
+		}
+		if bad {
+			r.Outcome("seq:" + tag + ":violation")
+		} else {
+			r.Outcome("seq:" + tag + ":ok")
+		}
+		r.Transitions(int64(len(seq)))
+	}
+	seq := make([]int, 0, depth)
+	var rec func(filled int)
+	stop := false
+	rec = func(filled int) {
+		for op := 0; op < nOps && !stop; op++ {
+			nf := filled
+			if op < nConv*L {
+				s := op % L
+				if s > filled {
+					continue
+				}
+				if s == filled {
+					nf = filled + 1
+				}
+				if len(seq) == depth-1 {
+					continue // the last operation is a pack
+				}
+			} else if op-nConv*L >= filled {
+				continue
+			}
+			seq = append(seq, op)
+			mine := true
+			if len(seq) == 2 {
+				*idx++
+				mine = r.Mine(*idx)
+				if mine && r.Expired("S "+tag) {
+					stop = true
+				}
+			}
+			if mine && !stop {
+				if op >= nConv*L {
+					run(seq)
+				}
+				if len(seq) < depth {
+					rec(nf)
+				}
+			}
+			seq = seq[:len(seq)-1]
+		}
+	}
+	rec(0)
+	r.Set("seq_"+tag, fmt.Sprintf("%d queries x %d clients, %d live messages, all operation sequences up to depth %d (completed=%v)", len(qs), len(cs), L, depth, !stop))
+}
+
+// c56put stores a thread's result; the harness's own bookkeeping must be invisible to the
+// race detector (thread hand-offs are deliberately not happens-before edges).
+//
+//go:norace
+func c56put(dst *[]c56Verdict, phase string, vs []c56Verdict) {
+	for _, v := range vs {
+		*dst = append(*dst, c56Verdict{v.sig, phase + ": " + v.detail})
+	}
+}
+
+// racePart: two requests converted, sent and re-sent on two threads; all interleavings.
+func (x *c56Run) racePart(qs []c56SeqQ, cs []c56AddrCombo, idx *int) {
+	r := x.r
+	base := c56baseline(qs, cs)
+	type qc struct{ q, c int }
+	var all []qc
+	for i := range qs {
+		for j := range cs {
+			all = append(all, qc{i, j})
+		}
+	}
+	execs := int64(0)
+	for a := range all {
+		for b := a; b < len(all); b++ {
+			*idx++
+			if !r.Mine(*idx) {
+				continue
+			}
+			pair := [2]qc{all[a], all[b]}
+			name := vk.Key("R", qs[pair[0].q].name, cs[pair[0].c].name, qs[pair[1].q].name, cs[pair[1].c].name)
+			n := vk.Explore(nil, nil, -1, func(ch *vk.Chooser) {
+				var reqs [2]*bfe_basic.Request
+				for t := 0; t < 2; t++ {
+					hr, e := bfe_http.ReadRequest(bfe_bufio.NewReader(&c56frag{qs[pair[t].q].raw, 0}), c56MaxURI)
+					if e != nil {
+						panic("harness bug: " + e.Error())
+					}
+					ac := cs[pair[t].c]
+					reqs[t] = &bfe_basic.Request{HttpRequest: hr, RemoteAddr: &net.TCPAddr{IP: append(net.IP(nil), ac.remote.IP...), Port: 40000 + t}}
+					if ac.client != nil {
+						reqs[t].ClientAddr = &net.TCPAddr{IP: append(net.IP(nil), ac.client.IP...), Port: 50000 + t}
+					}
+				}
+				var res [2][]c56Verdict
+				out := vsched.Run(ch, 200, func() {
+					for t := 0; t < 2; t++ {
+						t := t
+						vsched.Go("req", func() {
+							cm, ac := qs[pair[t].q].cm, cs[pair[t].c]
+							m, err := RequestToDnsMsg(reqs[t])
+							if err != nil {
+								c56put(&res[t], "convert", []c56Verdict{{"request-rejected", err.Error()}})
+								return
+							}
+							vsched.Yield("converted")
+							vs, _ := c56judge(cm, m, ac) // packs: first datagram
+							c56put(&res[t], "first send", vs)
+							vsched.Yield("sent")
+							vs, _ = c56judge(cm, m, ac) // packs again: retry
+							c56put(&res[t], "retry", vs)
+						})
+					}
+				})
+				id := name + "|trace:" + out.Trace
+				if !r.Case(id) {
+					return
+				}
+				r.Transitions(int64(out.Steps))
+				bad := false
+				if out.Panic != "" {
+					bad = true
+					r.Violation("interference:panic:"+vk.PanicSite(out.Panic), id, out.Panic)
+				}
+				if out.Races > 0 {
+					bad = true
+					r.Violation("race:concurrent-requests", id, fmt.Sprintf("%d data race(s) between the conversions/sends of two requests that nothing orders (see the race report in the log)", out.Races))
+				}
+				for t := 0; t < 2; t++ {
+					for _, v := range res[t] {
+						if base[pair[t].q][pair[t].c][v.sig] {
+							continue
+						}
+						bad = true
+						r.Violation("interference:"+v.sig, id, fmt.Sprintf("request %d of two concurrent ones, %s", t, v.detail))
+					}
+				}
+				if bad {
+					r.Outcome("race-part:violation")
+				} else {
+					r.Outcome("race-part:ok")
+				}
+			}, func() bool { return r.Expired("R") })
+			execs += n
+			r.Nontrivial(name)
+		}
+	}
+	r.Traces(execs)
+	r.Set("race_part", fmt.Sprintf("%d queries x %d clients, all unordered pairs on 2 threads, all interleavings of {convert, send, re-send}; race detector on=%v", len(qs), len(cs), vsched.RaceEnabled))
+}
+
 func TestVerifC56(t *testing.T) {
 	r := vk.Start(t, "C56")
 	defer r.Finish()
@@ -988,6 +1356,19 @@ func TestVerifC56(t *testing.T) {
 	r.Set("transports", len(trs))
 
 	idx := 0
+	// ---- S (first: small, and the only parts with more than one request alive): several live messages, all operation sequences
+	if th {
+		x.seqExplore("L2", c56seqQueries(5), c56seqClients(4), 2, 4, &idx)
+		x.seqExplore("L2deep", c56seqQueries(3), c56seqClients(3), 2, 5, &idx)
+		x.seqExplore("L2wide", c56seqQueries(8), c56seqClients(6), 2, 4, &idx)
+		x.seqExplore("L3", c56seqQueries(3), c56seqClients(2), 3, 5, &idx)
+	} else {
+		x.seqExplore("L2", c56seqQueries(5), c56seqClients(4), 2, 4, &idx)
+	}
+	r.Sample(map[string]string{"part": "S", "example": "conv0(noopt/get, 198.51.100.7) pack0 conv1(noopt/get, 2001:db8::42) pack0 => the re-sent message 0 must still carry ECS 1/32 198.51.100.7"})
+	// ---- R: two requests on two threads, all interleavings, race detector
+	x.racePart(c56seqQueries(r.Pick(3, 6)), c56seqClients(r.Pick(2, 4)), &idx)
+
 	nValid := 0
 	// ---- A: well-formed messages x transports x address combos
 	c56validMessages(th, func(m *c56Msg) {
@@ -1132,7 +1513,7 @@ func TestVerifC56(t *testing.T) {
 	var bigs []big
 	deltas := []int{-1, 0, 1, 2, 11, 12, 40, 300}
 	if th {
-		deltas = append(deltas, -300, -12, 3, 13, 100, 211, 1000, limit, 65535 - limit)
+		deltas = append(deltas, -300, -12, 3, 13, 100, 211, 1000, limit, 65535-limit)
 	}
 	for _, d := range deltas {
 		tot := limit + d
